@@ -14,8 +14,10 @@ from harness.observe import StickyNote, classify  # noqa: E402
 
 PID = 'C09'
 THEOREMS = ['PyDBML.C09.step_inv', 'PyDBML.C09.reach_inv', 'PyDBML.C09.init_inv', 'PyDBML.C09.rejected_unchanged',
-            'PyDBML.C09.tables_step', 'PyDBML.C09.lookup_sound', 'PyDBML.C09.project_replaced']
-MODULES = ['PyDBMLProofs.Props.C09']
+            'PyDBML.C09.tables_step', 'PyDBML.C09.lookup_sound', 'PyDBML.C09.project_replaced',
+            'PyDBML.C09T.step_inv', 'PyDBML.C09T.reach_inv', 'PyDBML.C09T.init_inv', 'PyDBML.C09T.rejected_unchanged',
+            'PyDBML.C09T.foreign_index_refused', 'PyDBML.C09T.accepted_index_subjects', 'PyDBML.C09T.cols_step']
+MODULES = ['PyDBMLProofs.Props.C09', 'PyDBMLProofs.Props.C09Table']
 
 # ---- universe -------------------------------------------------------------------------------------
 UNIVERSE = {
@@ -412,17 +414,27 @@ def table_hist_job(job):
     fails = []
     exp_cols, exp_idx = [], []
 
+    def cidx(c):
+        return next((k for k, x in enumerate(cols) if x is c), -1)
+
     def dump():
-        return {'cols': [cols.index(c) if c in cols and any(c is x for x in cols) else -1 for c in t.columns],
+        return {'cols': [cidx(c) for c in t.columns],
                 'idx': [next((k for k, x in enumerate(idxs) if x is i), -1) for i in t.indexes],
                 'ctable': [c.table is t for c in cols], 'itable': [i.table is t for i in idxs]}
 
-    def cidx(c):
-        return next((k for k, x in enumerate(cols) if x is c), -1)
+    # the same history for the Lean model (PyDBMLModel/TableCont.lean): universe = the four columns + the foreign one
+    icls = {}
+    mop = None
+
+    def mstate():
+        own = lambda c: 1 if c.table is t else (0 if c.table is None else 2)  # noqa: E731
+        return {'cols': [cidx(c) for c in t.columns], 'idxs': [next((k for k, x in enumerate(idxs) if x is i), -1) for i in t.indexes],
+                'owner': [own(c) for c in cols] + [own(foreign)], 'attached': [i.table is t for i in idxs]}
     for _ in range(n):
         r = rng.random()
         before = dump()
         op = None
+        mop = None
         out = 'ok'
         try:
             if r < 0.25:
@@ -430,13 +442,13 @@ def table_hist_job(job):
                 if not free:
                     continue
                 k = rng.choice(free)
-                op = ['add_column', k]
+                op = mop = ['add_column', k]
                 t.add_column(cols[k])
                 exp_cols.append(cols[k])
             elif r < 0.4:
                 if rng.random() < 0.5 and t.columns:
                     k = rng.randrange(len(t.columns))
-                    op = ['delete_column_pos', k]
+                    op = mop = ['delete_column_pos', k]
                     got = t.delete_column(k)
                     if got is not exp_cols[k]:
                         fails.append('delete_column(int) returned another column')
@@ -445,7 +457,7 @@ def table_hist_job(job):
                         fails.append('deleted column still points to the table')
                 else:
                     k = rng.randrange(len(cols))
-                    op = ['delete_column_obj', k]
+                    op = mop = ['delete_column_obj', k]
                     # membership by what the column says (not by the implementation's own __eq__)
                     member = any(cols[k] is x or (cols[k].name == x.name and str(cols[k].type) == str(x.type)) for x in t.columns)
                     got = t.delete_column(cols[k])
@@ -486,6 +498,9 @@ def table_hist_job(job):
                 idxs.append(ix)
                 before = dump()
                 op = ['add_index', [cidx(s) if isinstance(s, Column) else 'expr' for s in subj]]
+                key = (ix.name, ix.unique, ix.type, ix.pk, ix.note.text, ix.comment)
+                mop = ['new_index', [(4 if s is foreign else cidx(s)) if isinstance(s, Column) else ['expr', 0] for s in subj],
+                       icls.setdefault(key, len(icls))]
                 bad = any(isinstance(s, Column) and s.table is not t for s in subj)
                 t.add_index(ix)
                 if bad:
@@ -494,14 +509,14 @@ def table_hist_job(job):
             elif r < 0.75 and idxs:
                 if rng.random() < 0.5 and t.indexes:
                     k = rng.randrange(len(t.indexes))
-                    op = ['delete_index_pos', k]
+                    op = mop = ['delete_index_pos', k]
                     got = t.delete_index(k)
                     if got is not exp_idx[k] or got.table is not None:
                         fails.append('delete_index(int) inconsistent')
                     exp_idx.pop(k)
                 else:
                     k = rng.randrange(len(idxs))
-                    op = ['delete_index_obj', k]
+                    op = mop = ['delete_index_obj', k]
                     def full_eq(a, b):
                         return (len(a.subjects) == len(b.subjects) and all(x is y or (not isinstance(x, Column) and str(x) == str(y)) for x, y in zip(a.subjects, b.subjects))
                                 and (a.name, a.unique, a.type, a.pk, a.note.text, a.comment) == (b.name, b.unique, b.type, b.pk, b.note.text, b.comment))
@@ -558,7 +573,7 @@ def table_hist_job(job):
             for s in i.subjects:
                 if isinstance(s, Column) and s.table is not t and any(s is x for x in cols) and s.table is not None:
                     fails.append('index subject belongs to another table')
-        trace.append({'op': op, 'out': out, 'state': after})
+        trace.append({'op': op, 'out': out, 'state': after, 'mop': mop, 'mstate': mstate()})
     return {'trace': trace, 'fails': fails}
 
 
@@ -581,6 +596,24 @@ def part_table(ctx, drv):
             ctx.count('table-op:' + o)
         for f in r['fails'][:2]:
             ctx.fail(f, {'op': 'table_hist', 'seed': seed}, reason=None)
+    # correspondence with the Lean table-level state machine, step by step
+    if drv is not None:
+        uni = {'C': [[0, 0], [1, 0], [0, 0], [2, 0], [9, 2]]}
+        hs = [[st for st in r['trace'] if st.get('mop')] for r in res]
+        model = drv.ask_many({'op': 'thist', 'universe': uni, 'ops': [st['mop'] for st in h]} for h in hs)
+        want = {'ok': 'ok', 'ColumnNotFound': 'not-found', 'IndexNotFound': 'not-found'}
+        for (seed, _), h, m in zip(jobs, hs, model):
+            steps = m.get('steps')
+            if steps is None:
+                ctx.diverge('table-level history (model reply)', {'op': 'thist', 'seed': seed}, m, 'steps')
+                continue
+            for j, (st, ms) in enumerate(zip(h, steps)):
+                ctx.count('thist-step')
+                impl = {'outcome': want.get(st['out'], st['out']), 'state': st['mstate']}
+                if ms != impl:
+                    ctx.diverge('table-level container step (outcome + lists + back-pointers)',
+                                {'op': 'thist', 'seed': seed, 'universe': uni, 'ops': [x['mop'] for x in h[:j + 1]]}, ms, impl)
+                    break
 
 
 def kf_replay(f):
@@ -619,10 +652,14 @@ def main(tier, seed):
         explanation='Lean state machine of Database (lean/PyDBMLModel/Container.lean) with the container invariant proved for '
                     'every step and, by induction, every history; rejected operations leave the state unchanged; lookup is '
                     'sound and complete for the current names. Tied to the real classes by running the same histories on both '
-                    'sides. Model-free oracle: list/dict agreement, back-pointers, snapshots around rejected calls.',
+                    'sides. One level down (lean/PyDBMLModel/TableCont.lean, PyDBMLProofs/Props/C09Table.lean): a table as a container of '
+                    'its columns and indexes - the lists hold no object twice and agree with the owner back-pointers in every reachable '
+                    'state, a refused operation changes nothing, an index over a column the table does not hold is refused, the column list '
+                    'is added-and-not-deleted in insertion order; tied by the same step-by-step comparison on random histories. '
+                    'Model-free oracle: list/dict agreement, back-pointers, snapshots around rejected calls.',
         assumptions=['object identity is modelled by universe indices', 'renames onto an existing key are outside the lookup clause (KeysDistinct)'],
         trusted_base=['Lean 4.33 kernel', 'axioms: propext, Classical.choice, Quot.sound only',
-                      'hand-written model PyDBMLModel/Container.lean tied by this correspondence'],
+                      'hand-written models PyDBMLModel/Container.lean and PyDBMLModel/TableCont.lean tied by this correspondence'],
         kf_replay=kf_replay, proof_problems=problems)
 
 
@@ -630,6 +667,14 @@ def replay(path):
     case = json.load(open(path))
     print(json.dumps(case, indent=1)[:3000])
     c = case.get('case', {})
+    if c.get('op') == 'thist':
+        with Driver() as d:
+            m = d.ask({'op': 'thist', 'universe': c['universe'], 'ops': c['ops']})
+            print('model', json.dumps(m['steps'][-1]))
+        if c.get('seed'):
+            r = table_hist_job((c['seed'], 30))
+            h = [st for st in r['trace'] if st.get('mop')][:len(c['ops'])]
+            print('impl ', json.dumps({'outcome': h[-1]['out'], 'state': h[-1]['mstate']}), 'oracle fails', r['fails'][:3])
     if 'history' in c:
         r = impl_job((0, c['history']))
         print('impl outcomes', [s['outcome'] for s in r['steps']], 'oracle fails', r['fails'])
